@@ -68,3 +68,29 @@ def cluster_moments(X, C):
 
 def fl(rows):
     return [[float(v) for v in r] for r in rows]
+
+
+def lloyd_step_candidates(X, C, limit=64):
+    """All results of one Lloyd iteration under every admissible tie-break (a sample exactly equidistant from several
+    nearest centroids may be assigned to any of them). Returns a list of centroid lists; at most `limit` candidates."""
+    import itertools
+
+    options = []
+    for x in X:
+        ds = [sqdist(x, c) for c in C]
+        m = min(ds)
+        options.append([k for k, d in enumerate(ds) if d == m])
+    n_comb = 1
+    for o in options:
+        n_comb *= len(o)
+    if n_comb > limit:
+        return None
+    K, D = len(C), len(C[0])
+    out = []
+    for labels in itertools.product(*options):
+        new = []
+        for k in range(K):
+            pts = [x for x, l in zip(X, labels) if l == k]
+            new.append(tuple(sum(p[d] for p in pts) / len(pts) for d in range(D)) if pts else tuple(C[k]))
+        out.append(new)
+    return out
